@@ -34,7 +34,7 @@ TABLES = [
     ('T8e', 'get_attack_surface', ('C12',)),
     ('T8f', 'update_attack_surface_add_nodes', ('C12',)),
     ('T10', 'LanguageGraph._get_attacks_for_asset_type', ('C03', 'C02', 'C01', 'C06')),
-    ('T11a', 'LanguageClassesFactory._generate_assets', ('C06',)),
+    ('T11a', 'LanguageClassesFactory._generate_assets', ('C06', 'C05')),
     ('T11b', 'LanguageClassesFactory._generate_associations', ('C06',)),
     ('T11c', 'LanguageClassesFactory.get_association_by_signature', ('C06', 'C18')),
     ('T12a', 'Model._validate_association', ('C06', 'C05')),
